@@ -6,7 +6,7 @@ import asyncio
 from bumble import l2cap
 from pyvc.contracts import (Any, Bool, Bytes, Callback, Inst, Int, IntRange, ListOf, OneOf, Opt, contract, forall, iff,
                             implies, ite, lemma, model, at)
-from pyvc.ext_c08 import RecListOf, col
+from pyvc.ext_c08 import RecListOf, col, split_fact, subseq
 from spec.ertm import (CONT, END, RR, RNR, START, UNSEG, le16, f_final, f_poll, f_req_seq, f_sar, f_sfunc, f_tx_seq, iframe,
                        iframe_data, is_iframe, is_sframe, segmentation, sframe_ctrl)
 
@@ -435,12 +435,15 @@ def on_pdu_post(self, pdu, old, ghost):
         implies(i, self._remote_is_busy == old.self._remote_is_busy),
         implies(not i and (sf == RR or sf == RNR) and f_poll(pdu) == 1,
                 len(ghost.sent) >= 1 and ghost.sent[len(ghost.sent) - 1] == sframe_ctrl(RR, 0, self._req_seq_num, 1)),
+        # a frame with F=1 that acknowledges nothing beyond what is outstanding ends the wait for a poll response
+        implies(f_final(pdu) == 1 and n_acked(old, ite(i, f_req_seq(pdu), at(pdu, 1) % 128)) <= len(old.self._tx_window), self._monitor_handle is None),
     ] + wf(self, ghost) + [
         # nothing waits while the window has room (a peer that was busy is only served again at the next acknowledgement)
         implies(not old.self._remote_is_busy and n_acked(old, ite(i, f_req_seq(pdu), at(pdu, 1) % 128)) <= len(old.self._tx_window), no_stall(self)),
     ]
 
 
+ON_PDU_MOD = ACK_MOD + ['self._req_seq_num', 'self._in_sdu', 'self._remote_is_busy', 'ghost.delivered']
 contract(
     ERTM_M + '.on_pdu',
     prop='C08',
@@ -450,7 +453,7 @@ contract(
     requires=lambda self, pdu, ghost: wf(self, ghost) + [implies(is_sframe(pdu), at(pdu, 1) < 64)],
     ensures=on_pdu_post,
     raises={IndexError: lambda self, pdu, old, ghost: [len(pdu) < 2, rx_unchanged(self, old, ghost)] + wf(self, ghost)},
-    modifies=ACK_MOD + ['self._req_seq_num', 'self._in_sdu', 'self._remote_is_busy', 'ghost.delivered'],
+    modifies=ON_PDU_MOD,
     uses=USE_ACK + USE_SF,
     inline=INLINE_CF,
 )
@@ -596,4 +599,70 @@ contract(
     ensures=lambda self, pdu, old, ghost: [ghost.delivered == old.ghost.delivered + [pdu], ghost.sent == old.ghost.sent],
     ensures_names=['delivered-once-unchanged', 'nothing-sent'],
     modifies=['ghost.delivered'],
+)
+
+
+# ---------------------------------------------------------------------------
+# lemma: the I-frames of one SDU, delivered in order, yield exactly that SDU, once
+# ---------------------------------------------------------------------------
+def lemma_ertm_roundtrip(rx, sdu, start, reqs, ghost):
+    """the receiving processor is fed the frames that send_sdu queues for `sdu` (its contract: segments ghost.seg_*,
+    sequence numbers start, start+1, ... modulo 64) as _PendingPdu.__bytes__ serialises them, in order, each carrying
+    some acknowledgement number"""
+    j = 0
+    while j < len(ghost.seg_off):
+        tx = (start + j) % 64
+        f = iframe(tx, reqs[j], ghost.seg_sar[j], 1, ghost.seg_len[j], ghost.seg_pay[j])
+        # (proof hints: what the specification reads back from this frame)
+        assert is_iframe(f) and f_tx_seq(f) == tx and f_req_seq(f) == reqs[j] and f_final(f) == 1
+        assert f_sar(f) == ghost.seg_sar[j]
+        assert iframe_data(f) == ghost.seg_pay[j]
+        # (proof hints: the instances of the segmentation facts for segment j and the next one)
+        k = len(ghost.seg_off)
+        assert ghost.seg_pay[j] == subseq(sdu, ghost.seg_off[j], rx.mps) and ghost.seg_off[j] >= 0
+        if j + 1 < k:
+            assert ghost.seg_off[j + 1] == ghost.seg_off[j] + rx.mps and ghost.seg_off[j + 1] < len(sdu)
+        else:
+            assert ghost.seg_off[j] + rx.mps >= len(sdu)
+        assert (ghost.seg_sar[j] == END or ghost.seg_sar[j] == UNSEG) == (j + 1 == k)
+        assert split_fact(sdu, ghost.seg_off[j], rx.mps)
+        rx.on_pdu(f)
+        j = j + 1
+
+
+def rt_inv(rx, sdu, start, reqs, j, old, ghost):
+    k = len(ghost.seg_off)
+    return [
+        0 <= j and j <= k,
+        rx._req_seq_num == (start + j) % 64,
+        # what has been reassembled so far is the SDU up to the offset of the next segment
+        implies(j < k, rx._in_sdu == subseq(sdu, 0, ghost.seg_off[j]) and ghost.delivered == old.ghost.delivered),
+        implies(j == k, rx._in_sdu == b'' and ghost.delivered == old.ghost.delivered + [sdu]),
+    ] + wf(rx, ghost)
+
+
+lemma(
+    'ertm_roundtrip',
+    lemma_ertm_roundtrip,
+    prop='C08',
+    params=dict(rx=ERTM, sdu=Bytes, start=IntRange(0, 63), reqs=ListOf(Int)),
+    ghost=dict(GHOST, **SEG_GHOST),
+    requires=lambda rx, sdu, start, reqs, ghost: wf(rx, ghost) + [
+        rx._in_sdu == b'',
+        rx._req_seq_num == start,
+        len(sdu) <= 0xFFFF,
+        rx.mps >= 1,
+        len(reqs) == len(ghost.seg_off),
+        forall(0, len(reqs), lambda j: 0 <= reqs[j] and reqs[j] < 64),
+    ] + segmentation(len(sdu), sdu, rx.mps, ghost.seg_off, ghost.seg_pay, ghost.seg_sar, ghost.seg_len),
+    ensures=lambda rx, sdu, start, old, ghost: [
+        ghost.delivered == old.ghost.delivered + [sdu],
+        rx._in_sdu == b'',
+        rx._req_seq_num == (start + len(ghost.seg_off)) % 64,
+    ] + wf(rx, ghost),
+    ensures_names=['delivered-exactly-once-intact', 'nothing-left-over', 'sequence-number-advanced-by-the-number-of-frames'] + WF_NAMES,
+    invariants={0: rt_inv},
+    decreases={0: lambda j, ghost: len(ghost.seg_off) - j},
+    modifies=[m.replace('self.', 'rx.') for m in ON_PDU_MOD],
+    uses=[ERTM_M + '.on_pdu'],
 )
